@@ -18,8 +18,11 @@ use vmm_sys_util::{
 };
 
 // Use a dummy ioctl implementation for tests instead.
-#[cfg(not(test))]
+#[cfg(all(not(test), not(vm_memory_verif)))]
 use vmm_sys_util::ioctl::ioctl_with_ref;
+
+#[cfg(all(not(test), vm_memory_verif))]
+use verif_ioctl::ioctl_with_ref;
 
 #[cfg(test)]
 use tests::ioctl_with_ref;
@@ -1019,6 +1022,88 @@ impl MmapXen {
         match mmap_xen {
             Some(mmap_xen) => mmap_xen.mmap.mmap_slice(addr, prot, len).unwrap(),
             None => MmapXenSlice::raw(addr),
+        }
+    }
+}
+
+/// Emulated Xen grant / privcmd devices for the external verification harness
+/// (`--cfg vm_memory_verif` only): a grant reference is backed by the page of the same number of
+/// the file the region was created over (`index = first_reference * page_size`), every request is
+/// logged, and the next requests can be told to fail.
+#[cfg(all(not(test), vm_memory_verif))]
+#[allow(missing_docs)]
+pub mod verif_ioctl {
+    use super::*;
+    use std::sync::Mutex;
+
+    #[derive(Clone, Debug, PartialEq, Eq)]
+    pub enum DevEvent {
+        /// GNTDEV map: (index = byte offset handed back, number of pages, domid)
+        Map(u64, u32, u32),
+        /// GNTDEV unmap: (index, number of pages)
+        Unmap(u64, u32),
+        /// PRIVCMD mmapbatch_v2: (number of pages, domid)
+        Foreign(u32, u16),
+        /// a request that was made to fail
+        Failed(&'static str),
+    }
+
+    static LOG: Mutex<Vec<DevEvent>> = Mutex::new(Vec::new());
+    static FAIL: Mutex<Vec<&'static str>> = Mutex::new(Vec::new());
+
+    pub fn take_log() -> Vec<DevEvent> {
+        std::mem::take(&mut *LOG.lock().unwrap())
+    }
+
+    /// Makes the next request of the given kind ("map", "unmap", "foreign") fail with EINVAL.
+    pub fn fail_next(kind: &'static str) {
+        FAIL.lock().unwrap().push(kind);
+    }
+
+    fn should_fail(kind: &'static str) -> bool {
+        let mut f = FAIL.lock().unwrap();
+        if let Some(pos) = f.iter().position(|k| *k == kind) {
+            f.remove(pos);
+            LOG.lock().unwrap().push(DevEvent::Failed(kind));
+            // SAFETY: errno location is valid for the current thread.
+            unsafe { *libc::__errno_location() = libc::EINVAL };
+            true
+        } else {
+            false
+        }
+    }
+
+    /// # Safety
+    /// `arg` must point to the structure `req` expects, as for the real ioctl.
+    pub unsafe fn ioctl_with_ref<F: AsRawFd, T>(_fd: &F, req: c_ulong, arg: &T) -> c_int {
+        if req == ioctl_gntdev_map_grant_ref() {
+            if should_fail("map") {
+                return -1;
+            }
+            let p = arg as *const T as *mut GntDevMapGrantRef;
+            let count = (*p).count;
+            let first = if count > 0 { (*p).refs.as_slice(count as usize)[0] } else { GntDevGrantRef::default() };
+            let index = first.reference as u64 * page_size();
+            (*p).index = index;
+            LOG.lock().unwrap().push(DevEvent::Map(index, count, first.domid));
+            0
+        } else if req == ioctl_gntdev_unmap_grant_ref() {
+            if should_fail("unmap") {
+                return -1;
+            }
+            let p = arg as *const T as *const GntDevUnmapGrantRef;
+            LOG.lock().unwrap().push(DevEvent::Unmap((*p).index, (*p).count));
+            0
+        } else if req == ioctl_privcmd_mmapbatch_v2() {
+            if should_fail("foreign") {
+                return -1;
+            }
+            let p = arg as *const T as *const PrivCmdMmapBatchV2;
+            LOG.lock().unwrap().push(DevEvent::Foreign((*p).num, (*p).domid));
+            0
+        } else {
+            *libc::__errno_location() = libc::ENOTTY;
+            -1
         }
     }
 }
